@@ -150,11 +150,13 @@ pub struct RunOpts {
     pub poke: bool,
     /// > 0: the caller advances with `nth(stride)` instead of `next()` (as `skip`/`step_by` do)
     pub stride: usize,
+    /// leave the generator's seed to the subject (the production path: seeded from the OS)
+    pub no_seed_override: bool,
 }
 
 impl RunOpts {
     pub fn new(max_next: usize) -> Self {
-        RunOpts { max_next, after_end: 0, continue_after_error: false, seed: 1, budget: DEFAULT_BUDGET, collect_vars: false, collect_key: false, extra_known: vec![], repeat_last: false, poke: false, stride: 0 }
+        RunOpts { max_next, after_end: 0, continue_after_error: false, seed: 1, budget: DEFAULT_BUDGET, collect_vars: false, collect_key: false, extra_known: vec![], repeat_last: false, poke: false, stride: 0, no_seed_override: false }
     }
 }
 
@@ -269,7 +271,7 @@ where
     known.extend(opts.extra_known.iter().cloned());
     let mut driver = ScriptDriver::<OV>::new(&known, script);
     driver.repeat_last = opts.repeat_last;
-    hooks::set_seed_override(Some(opts.seed));
+    hooks::set_seed_override(if opts.no_seed_override { None } else { Some(opts.seed) });
     let _ = hooks::take_draw_log();
     let mut obs = Obs {
         init: ObsInit::Ok,
